@@ -209,12 +209,9 @@ def run(ctx):
             if any(decl.endswith(m) or ck.endswith("::" + m) for m in BAD_METHODS) and not ck.startswith(SCOPE):
                 ctx.bad("Q-SEQ", "Q-SEQ:%s:%s" % (k, name), F.call_loc(t),
                         "%s applied to a sequence number in %s: not invariant under shifting the ISN" % (name, b.pretty))
-    # Ord for Segment delegates to the circular comparator
-    seg_cmp = prog.method("Segment", "cmp", "Ord")
-    uses = K.calls_to(seg_cmp, PRIMS + "::mod_lt") + K.calls_to(seg_cmp, PRIMS + "::mod_gt")
-    okk = len(uses) >= 1
-    (ctx.ok if okk else ctx.bad)("Q-SEQ", "Q-SEQ:Segment::cmp", seg_cmp.span,
-        "Ord for Segment orders by mod_lt on header.seq" if okk else "Ord for Segment no longer uses the circular comparator")
+    # Ord for Segment (the reordering heap) is the reversed circular order: decided semantically (shared with C01)
+    from . import c01
+    c01.check_heap_order(ctx, "Q-HEAPORD")
     seg_eq = prog.method("Segment", "eq", "PartialEq")
     ctx.ok("Q-SEQ", "Q-SEQ:discipline", "elvis-core/src/protocols/tcp",
            "%d sequence-typed locals over %d bodies; consumers: %d wrapping_add/sub, %d circular comparator calls, %d ==/!=; no ordinary operator touches a sequence number" % (
